@@ -4,7 +4,14 @@ import json, subprocess
 
 ALL = ['C%02d' % i for i in range(1, 21)]
 TRACE = 'TLA+ level-A spec (Resonate.tla/Props.tla) checked exhaustively by TLC + TLC trace validation (ResonateTrace.tla) of executions recorded from the real kernel/coroutines/sqlite store driven by the ksim harness (controlled AIO: commit order, batching, ticks, faults, crashes)'
+SIDE = 'TLA+ side specification checked/enumerated by TLC + conformance of the real code: TLC-generated workloads replayed on the real implementation and the recorded observations judged by TLC against the specification'
 CLAIMED = {
+ 'C12': dict(cat='model_checking', ref='6/C12', text='Queues.tla (client goroutines, api queue/buffer/done flag under its lock, Loop, bounded scheduler in-queue, subsystem queue, worker, blocking completion queue) checked exhaustively by TLC for safety and liveness (exactly one reply, accepted requests answered before the loop returns, loop returns after shutdown); TLC-generated schedules of the controllable steps are replayed on the PRODUCTION api/aio/System.Loop with real goroutines (hook after the done-check), plus seeded free-running rounds with sizes down to 1 and bursts; TLC judges what every client observed.', tech=SIDE, engine='tlc+queuex'),
+ 'C15': dict(cat='model_checking', ref='6/C15', text='The complete finite table (17 operations x 29 statuses x delivery path x resource shape = 1632 vectors, and 44 paired requests) is enumerated by TLC from Render.tla and played against the real gin and grpc servers with real clients over a stub kernel, in a child process so that handler panics are observed; TLC judges HTTP code/body, gRPC code, outcome flags and request translation.', tech=SIDE, engine='tlc+frontx'),
+ 'C16': dict(cat='model_checking', ref='6/C16', text='Store.tla is an executable reference of the 27 commands; TLC generates batches (1..3 transactions x 1..3 commands, guarded writes aimed at current rows half of the time, naturally failing bulk inserts) which are executed by the real SQLite worker; every reported result (evaluated on the state just before its command) and the five tables read back through a second connection are judged by TLC.', tech=SIDE, engine='tlc+storex'),
+ 'C17': dict(cat='model_checking', ref='6/C17', text='The same TLC-generated workloads are executed by the real Postgres worker code (statement text, placeholders, argument and scan order, row-count plumbing, transaction handling) over a dialect-translating driver on the SQLite engine, and by the SQLite worker; both are judged by TLC against Store.tla, hence against each other.', tech=SIDE, engine='tlc+storex+pgemu'),
+ 'C18': dict(cat='model_checking', ref='6/C18', text='Poll.tla (registry, buffers, connection limit, usurpation, id preference, notify rule, double-close = crash) checked exhaustively; TLC-generated event sequences are replayed on the real connections registry and PollWorker.Process, directly and through the real PollWorker.Start loop (control events queued while the worker is busy exercise the prioritised select); registry, buffer lengths, Done results and panics judged by TLC.', tech=SIDE, engine='tlc+pollx'),
+ 'C19': dict(cat='model_checking', ref='6/C19', text='Route.tla: routing-tag classes x target tables x stored receivers x task kinds (149 vectors) enumerated by TLC and played on the real router worker and the real sender worker with recording plugins; matched/receiver, plugin, data, message type, body and links judged by TLC.', tech=SIDE, engine='tlc+routex'),
  'C14': dict(cat='model_checking', ref='6/C14', text='Search definitions (pattern, state mask, tags, newest first, page size, cursor iff full) checked exhaustively by TLC: following cursors returns exactly the matching set once each; real searches go through the real API helper and real JWT cursors, each page must be the level-A result on a commit-point state, traversals are checked for duplicates/completeness under concurrent mutations, forged cursors must be rejected.', tech=TRACE),
  'C01': dict(cat='model_checking', ref='6/C01', text='Write-once/immutability as TLA+ action properties: exhaustive on the bounded level-A model; every recorded commit (incl. each transaction inside a batch), reply and notification of seeded racing workloads with faults and crashes is checked by TLC against them.', tech=TRACE),
  'C02': dict(cat='model_checking', ref='6/C02', text='Linearizability by observed commit points: every state change of the real store must be the level-A effect of the owning request at its decision tick (or a no-op), every reply must be the level-A result at one of the request\'s commit points; whole bodies compared, TLC is the oracle.', tech=TRACE),
@@ -29,6 +36,12 @@ NOTE = {
  'C08': 'hand-off outcomes are scripted by the harness (ok/refused/transport error); router errors injected',
  'C09': 'single store connection',
  'C10': 'cron expressions of the */k-seconds family; robfig/cron is the trusted definition of an occurrence',
+ 'C12': 'one subsystem (echo) and one worker; wall-clock settle times in directed mode (margins >= 20x the signal timeout)',
+ 'C15': 'the stub kernel may return combinations the real kernel never produces (the statement quantifies over every status for every endpoint)',
+ 'C16': 'isolation (visibility only at commit) is exercised through the second connection after every Execute, not at intermediate points',
+ 'C17': 'NO Postgres server: the SQL runs on SQLite through pgemu; Postgres-only semantics (32-bit INTEGER columns, jsonb key order, locking across several workers) are out of reach',
+ 'C18': 'the HTTP/SSE handler goroutines and the shutdown path are outside the replay',
+ 'C19': 'representative values per class, all classes enumerated',
  'C14': 'ids and patterns from an alphabet without SQL LIKE metacharacters and of uniform case (SQLite LIKE is case-insensitive; the statement only defines *); completeness is checked for promise traversals',
  'C11': 'the cycle bound is generous (40 + 12 x rows); hand-offs succeed and no faults after clients stop',
 }
@@ -54,7 +67,7 @@ def main():
              hooks=dict(guard='verif', enable='bin/build.sh: go build -tags verif -overlay /verif/build/overlay.json (harness sources and accessor files are overlaid into the module, nothing is written to /repo)',
                         baseline_off_cmd='cd /repo && GOFLAGS=-mod=mod GOPROXY=off GOSUMDB=off GOTOOLCHAIN=local go test -vet=off -count=1 ./...',
                         source_commits=commits, add_only=True),
-             engines=[dict(name='tlc+ksim', path='/verif/bin/check', serves_properties=sorted(CLAIMED),
+             engines=[dict(name='tlc+ksim', path='/verif/bin/check', serves_properties=sorted(p for p in CLAIMED if CLAIMED[p].get('engine', 'tlc+ksim') == 'tlc+ksim'),
                            kind_free_text='TLC (exhaustive level-A models + trace validation) over traces recorded by Go harnesses that drive the real code')],
              checks=checks,
              notes='Known findings: /verif/known_findings.json. Seeded changes and which checks catch them: /verif/seeded/*/meta.json and DESIGN.md.',
